@@ -12,7 +12,7 @@
    own ancestor" hold by construction); the correspondence compares them with
    the implementation's [_parent]/[_children]/[_tree] after every step. *)
 From Coq Require Import List ZArith Bool Arith Permutation.
-From NT Require Import Sx Rose Surgery Machine WF PreserveOps PreserveSort PreserveCopy PreserveMore Invariant.
+From NT Require Import Sx Rose Surgery Machine WF PreserveOps PreserveSort PreserveCopy PreserveMore PreserveRelabel Invariant.
 Import ListNotations.
 
 (* ---- the checker used by the correspondence decides WF ---- *)
@@ -52,6 +52,14 @@ Print Assumptions C01_step_sort.
 Theorem C01_step_meta : forall w ti n o, WFw w -> WFw (snd (op_meta w ti n o)).
 Proof. exact WFw_op_meta. Qed.
 Print Assumptions C01_step_meta.
+
+Theorem C01_step_set_data : forall w ti n d explicit wcl, WFw w -> WFw (snd (op_set_data w ti n d explicit wcl)).
+Proof. exact WFw_op_set_data. Qed.
+Print Assumptions C01_step_set_data.
+
+Theorem C01_step_rename : forall w ti n d, WFw w -> WFw (snd (op_rename w ti n d)).
+Proof. exact WFw_op_rename. Qed.
+Print Assumptions C01_step_rename.
 
 Theorem C01_step_add_node : forall w ti p sti src explicit k b deep,
   WFw w -> WFw (snd (op_add_node w ti p sti src explicit k b deep)).
@@ -100,7 +108,7 @@ Print Assumptions C01_step_tree_from_dict.
 Definition C01_full_statement : Prop := forall w o, WFw w -> WFw (snd (step w o)).
 Definition C01_history_full_statement : Prop := forall ops w, WFw w -> WFw (run ops w).
 
-(* proved for the operations selected by [covered] (all but set_data / rename and
+(* proved for the operations selected by [covered] (all but
    remove(keep_children=True, with_clones=True)) *)
 Theorem C01_step_partial : forall w o, covered o = true -> WFw w -> WFw (snd (step w o)).
 Proof. exact WFw_step_partial. Qed.
@@ -150,7 +158,10 @@ Definition c01_ops : list op :=
    OCopyTo 0 4 1 0 true BNone true;                 (* refused or copied into tree 1 *)
    ORemove 0 2 false false;
    OSort 0 0 [(1, Some [2%Z]); (4, Some [1%Z])] false false;
-   OMeta 0 1 (MSet [7%Z] (Some (A 1%Z)))].
+   OMeta 0 1 (MSet [7%Z] (Some (A 1%Z)));
+   OAdd 0 1 (c01_dd 20) None None BNone;            (* a second node with data_id 20 *)
+   OSetData 0 4 (Some (c01_dd 50)) None (Some true);  (* re-key the clone group {4, new} *)
+   ORename 0 1 (c01_dd 60)].                        (* refused: data is not a str *)
 Example C01_nonvacuous :
   wf_world_b (run c01_ops empty_world) = true /\ forallb covered c01_ops = true /\
   length (trees (run c01_ops empty_world)) = 2 /\ 6 <= length (all_ids (run c01_ops empty_world)).
